@@ -316,6 +316,45 @@ def run(ctx):
             ctx.violation('EFFECT-PURE', 'EFFECT:hash-order:lunar::LunarYear::get_leap_month', 'year %d is listed under leap months %d and %d: get_leap_month returns whichever column the hash map yields first' % dup)
         else:
             ctx.ok('EFFECT-PURE', len(seen), {'hash_iteration_sites': hsites, 'discharged_by': 'no year in two columns (%d leap years)' % len(seen)})
+        # ... and the reader itself is evaluated under several iteration orders of the map: its answer for every year must not depend on the order
+        # (std's RandomState gives every process its own order)
+        def order_invariance():
+            from rlib import pmap
+            res = []
+            for perm in ('as built', 'reversed', 'rotated'):
+                Ih = ctx.interp(fuel=10 ** 9)
+                raw = Ih.static('LEAP_MONTH_YEAR', 'src/tyme/lunar.rs')
+                items = list(raw.items())
+                if perm == 'reversed':
+                    items = items[::-1]
+                elif perm == 'rotated':
+                    items = items[5:] + items[:5]
+                key = [k for k in Ih.static_cache if k[1] == 'LEAP_MONTH_YEAR'][0]
+                Ih.static_cache[key] = type(raw)(items)
+                th = T(Ih)
+                res.append(pmap(lambda y: py(th.m(Ih.call('LunarYear::from_year', [y]), 'get_leap_month')), list(range(-1, 10000))))
+            for i, y in enumerate(range(-1, 10000)):
+                if not (res[0][i] == res[1][i] == res[2][i]):
+                    return 'LunarYear::get_leap_month(%d) is %s / %s / %s under three iteration orders of the leap-month map: the answer differs from process to process' % (y, res[0][i], res[1][i], res[2][i])
+            return None
+        ctx.guard('EFFECT-PURE', 'EFFECT:hash-order:lunar::LunarYear::get_leap_month:evaluated', order_invariance, 3 * 10001, {'orders': 3, 'years': 10001})
+
+    # every blocking acquisition must go through one of the idioms whose poisoned case is understood: recover the same guard
+    # (unwrap_or_else(|e| e.into_inner())) or panic (unwrap / expect, judged above).  A function that takes the lock result apart by hand
+    # can answer differently once a refused request has poisoned the mutex.
+    OK_ACQ = re.compile(r'::(unwrap_or_else|unwrap|expect|into_inner)$')
+    for f in mir['fns']:
+        if '{closure' in f['path']:
+            continue
+        locks = [x for c_ in f['calls'] for x in expand(c_) if re.search(r'(Mutex::<[^>]*>::lock|RwLock::<[^>]*>::(read|write))$', x)]
+        if not locks:
+            continue
+        good = [g for g in f['guards'] if OK_ACQ.search(g['def_call'])]
+        if len(good) < len(locks):
+            ctx.violation('EFFECT-LOCK', 'EFFECT:poison-branch:%s' % short(f['path']), '%s acquires a lock but does not obtain its guard through unwrap_or_else(|e| e.into_inner()) / unwrap / expect: '
+                          'the poisoned case follows a different code path, so a refused request can change later answers' % short(f['path']), {'locks': locks, 'guards': [g['def_call'] for g in f['guards']]})
+        else:
+            ctx.ok('EFFECT-LOCK', len(locks), {'site': short(f['path']), 'acquisition': [g['def_call'].split('::')[-1] for g in good]})
 
     # non-blocking acquisition makes an answer depend on what other threads hold at that moment
     # (a function that falls back to the blocking acquisition of the same primitive when the attempt fails computes the same answer either way and is not reported)
